@@ -241,41 +241,60 @@ theorem C10_complete_file_accepted (offset sizeAll bytes fileLen : Nat) (h : off
     readDataset offset sizeAll bytes fileLen = .ok () :=
   complete_file_accepted offset sizeAll bytes fileLen h
 
-/-- … for a dynamic or parametric Interfile image (`nsets` data sets of `sizeAll·bytes` bytes in one data file, at the
-    offsets `write_basic_interfile` announces; modality other than NM): a file shorter than the `nsets·sizeAll·bytes`
-    bytes announced is rejected, at every length. -/
-theorem C10_truncated_container_rejected (nsets sizeAll bytes fileLen : Nat) (h : fileLen < nsets * (sizeAll * bytes)) :
-    readDatasets false (datasetOffsets nsets sizeAll bytes) sizeAll bytes fileLen = .error () :=
-  truncated_container_rejected nsets sizeAll bytes fileLen h
+/-- … for a dynamic Interfile image of ANY modality and a parametric one of any modality but NM (`nsets` data sets of
+    `sizeAll·bytes` bytes in one data file, at the offsets `write_basic_interfile` announces): a file shorter than the
+    `nsets·sizeAll·bytes` bytes announced is rejected, at every length.  (Dynamic + NM: the offset keys are still not
+    parsed, but since repo commit 0e66b8adc `read_interfile_dynamic_image` lets a frame without a parsed offset follow
+    the previous one, which is where the writer put it.) -/
+theorem C10_truncated_container_rejected (dyn nm : Bool) (hd : dyn = true ∨ nm = false) (nsets sizeAll bytes fileLen : Nat)
+    (h : fileLen < nsets * (sizeAll * bytes)) :
+    readDatasets dyn nm (datasetOffsets nsets sizeAll bytes) sizeAll bytes fileLen = .error () :=
+  truncated_container_rejected dyn nm hd nsets sizeAll bytes fileLen h
 
-theorem C10_complete_container_accepted (nsets sizeAll bytes fileLen : Nat) (h : nsets * (sizeAll * bytes) ≤ fileLen) :
-    readDatasets false (datasetOffsets nsets sizeAll bytes) sizeAll bytes fileLen = .ok () :=
-  complete_container_accepted nsets sizeAll bytes fileLen h
+theorem C10_complete_container_accepted (dyn nm : Bool) (hd : dyn = true ∨ nm = false) (nsets sizeAll bytes fileLen : Nat)
+    (h : nsets * (sizeAll * bytes) ≤ fileLen) :
+    readDatasets dyn nm (datasetOffsets nsets sizeAll bytes) sizeAll bytes fileLen = .ok () :=
+  complete_container_accepted dyn nm hd nsets sizeAll bytes fileLen h
 
 example : datasetOffsets 3 6 2 = [0, 12, 24] ∧ (35 : Nat) < 3 * (6 * 2) := by decide
 
-/-- … whatever offsets the header announces (not NM): a file that ends before the end of any announced data set -/
+/-- the dynamic reader seeks to exactly the offsets the writer announced, also when the keys were not parsed (NM):
+    every frame is read from its own place (values of frames > 1 are no longer those of frame 1) -/
+theorem C10_dynamic_reader_uses_announced_offsets (nm : Bool) (nsets sizeAll bytes : Nat) :
+    usedOffsets true nm (datasetOffsets nsets sizeAll bytes) sizeAll bytes = datasetOffsets nsets sizeAll bytes :=
+  usedOffsets_dynamic nm nsets sizeAll bytes
+
+/-- … parametric image, whatever offsets the header announces (not NM): a file that ends before the end of any
+    announced data set -/
 theorem C10_truncated_dataset_rejected (offsets : List Nat) (o : Nat) (ho : o ∈ offsets) (sizeAll bytes fileLen : Nat)
-    (h : fileLen < o + sizeAll * bytes) : readDatasets false offsets sizeAll bytes fileLen = .error () :=
+    (h : fileLen < o + sizeAll * bytes) : readDatasets false false offsets sizeAll bytes fileLen = .error () :=
   truncated_dataset_rejected offsets o ho sizeAll bytes fileLen h
 
-/-- the full statement for Interfile images with several data sets of any modality — false for NM, see below -/
+/-- the full statement for Interfile images with several data sets, both readers, any modality — false for
+    parametric + NM, see below -/
 def C10_truncated_container_rejected_all_modalities : Prop :=
-  ∀ (nm : Bool) (nsets sizeAll bytes fileLen : Nat), fileLen < nsets * (sizeAll * bytes) →
-    readDatasets nm (datasetOffsets nsets sizeAll bytes) sizeAll bytes fileLen = .error ()
+  ∀ (dyn nm : Bool) (nsets sizeAll bytes fileLen : Nat), fileLen < nsets * (sizeAll * bytes) →
+    readDatasets dyn nm (datasetOffsets nsets sizeAll bytes) sizeAll bytes fileLen = .error ()
 
-/-- **the code violates the clause for modality NM** (known finding: `data offset in bytes` is not a registered key
-    after `!type of data := Tomographic`): every data set is read from offset 0, so a file that holds one data set is
-    returned as an image although the header announces `nsets` of them. -/
-theorem C10_truncated_container_NM_accepted (offsets : List Nat) (sizeAll bytes fileLen : Nat)
-    (h : sizeAll * bytes ≤ fileLen) : readDatasets true offsets sizeAll bytes fileLen = .ok () :=
-  nm_container_accepted_when_one_dataset_fits offsets sizeAll bytes fileLen h
+/-- **the code violates the clause for parametric images of modality NM** (known finding: `data offset in bytes` is not
+    a registered key after `!type of data := Tomographic`, and `read_interfile_parametric_image` uses the parsed offsets
+    as they are): every data set is read from offset 0, so a file that holds one data set is returned as an image
+    although the header announces two. -/
+theorem C10_truncated_parametric_NM_accepted (offsets : List Nat) (sizeAll bytes fileLen : Nat)
+    (h : sizeAll * bytes ≤ fileLen) : readDatasets false true offsets sizeAll bytes fileLen = .ok () :=
+  nm_parametric_accepted_when_one_dataset_fits offsets sizeAll bytes fileLen h
 
 theorem C10_truncated_container_rejected_all_modalities_fails : ¬ C10_truncated_container_rejected_all_modalities := by
   intro h
-  have h1 := h true 2 6 4 24 (by decide)
-  rw [C10_truncated_container_NM_accepted _ 6 4 24 (by decide)] at h1
+  have h1 := h false true 2 6 4 24 (by decide)
+  rw [C10_truncated_parametric_NM_accepted _ 6 4 24 (by decide)] at h1
   cases h1
+
+/-- regression witness: `read_interfile_dynamic_image` before repo commit 0e66b8adc (parsed offsets used as they were)
+    accepted a dynamic NM file holding a single frame, whatever the header announced -/
+theorem C10_old_dynamic_reader_accepted_truncated_NM :
+    readDynamicOld true (datasetOffsets 2 6 4) 6 4 24 = .ok () ∧ (24 : Nat) < 2 * (6 * 4) :=
+  ⟨old_dynamic_nm_accepted _ 6 4 24 (by decide), by decide⟩
 
 /-- … for a Multi image (every member a single image in a data file of its own): one short member file is enough -/
 theorem C10_truncated_multi_member_rejected (sizeAll bytes : Nat) (lens : List Nat) (len : Nat) (hl : len ∈ lens)
